@@ -7,6 +7,6 @@ git -C /repo apply "$P" || { echo "patch does not apply: $P"; exit 3; }
 OUT=$(timeout 900 /verif/check "$ID" "$@" 2>&1); RC=$?
 git -C /repo checkout -- . 
 case $RC in 0) R=SURVIVED;; 1) R=KILLED;; *) R=ERROR;; esac
-echo "$R $ID $(basename $P): $(echo "$OUT" | grep -v conda | grep -E 'signature|HARNESS|Error' | head -3 | tr '\n' ' ' | cut -c1-300)"
+echo "$R $ID $(basename $P): $(echo "$OUT" | grep -v conda | grep -v KNOWN-FINDING | grep -E 'signature|HARNESS|Error' | head -3 | tr '\n' ' ' | cut -c1-300)"
 [ "$R" = ERROR ] && echo "$OUT" | tail -15
 exit 0
